@@ -1401,7 +1401,7 @@ func (e *Eng) valsUnder(r *Reached, v ssa.Value, c *pctx) []ssa.Value {
 					n := 0
 					for _, st := range sts {
 						// only stores that were reached, and that can still be the cell's content at this load, count
-						if (r == nil || r.Instr[st]) && e.storeReaches(st, v, sts) {
+						if (r == nil || r.Instr[st]) && e.storeReaches(r, st, v, sts) {
 							n++
 							rec(st.Val, -2)
 						}
@@ -1427,13 +1427,15 @@ func (e *Eng) valsUnder(r *Reached, v ssa.Value, c *pctx) []ssa.Value {
 // storeReaches: can the value written by st still be in the cell when ld reads it?  (Stores in other
 // functions — literals sharing the cell — are always possible; within one function a store is killed by any
 // other store of the same function on every path to the load.)
-func (e *Eng) storeReaches(st *ssa.Store, ld *ssa.UnOp, all []*ssa.Store) bool {
+func (e *Eng) storeReaches(r *Reached, st *ssa.Store, ld *ssa.UnOp, all []*ssa.Store) bool {
 	if st.Parent() != ld.Parent() {
 		return true
 	}
 	key := [2]ssa.Instruction{st, ld}
-	if v, ok := e.reachCache[key]; ok {
-		return v
+	if r == nil {
+		if v, ok := e.reachCache[key]; ok {
+			return v
+		}
 	}
 	others := map[ssa.Instruction]bool{}
 	for _, o := range all {
@@ -1442,11 +1444,17 @@ func (e *Eng) storeReaches(st *ssa.Store, ld *ssa.UnOp, all []*ssa.Store) bool {
 		}
 	}
 	w := &Walk{Fn: st.Parent(), Barrier: func(in ssa.Instruction) bool { return others[in] }}
-	res := w.After(st).Has(ld)
-	if e.reachCache == nil {
-		e.reachCache = map[[2]ssa.Instruction]bool{}
+	if r != nil {
+		// only along edges the walk under consideration (with its assumptions) traversed
+		w.Cut = func(b *ssa.BasicBlock, si int) bool { return !r.Edge[[2]int{b.Index, b.Succs[si].Index}] }
 	}
-	e.reachCache[key] = res
+	res := w.After(st).Has(ld)
+	if r == nil {
+		if e.reachCache == nil {
+			e.reachCache = map[[2]ssa.Instruction]bool{}
+		}
+		e.reachCache[key] = res
+	}
 	return res
 }
 
